@@ -1,4 +1,4 @@
-"""skgenome/intersect.py -> Generated/ExprsRanges.lean (second reading of harness/exprtrans.py: one table, one query).
+"""skgenome/intersect.py, skgenome/combiners.py -> Generated/ExprsRanges.lean (second reading of harness/exprtrans.py: one table, one query).
 Props/C07Src.lean proves that the hand-written model of the two slicing paths, of the path switch, of the trim
 clipping and of the summary choice of `into_ranges` EQUALS these generated terms, so an edit to a searchsorted side,
 a mask expression, the `if start_val:` truthiness, the switch condition, a clip bound or the summary cascade in /repo
@@ -35,6 +35,31 @@ SPECS = [
      "intersect.into_ranges.series2value: 0 = the default, 1 = the single value, 2 = the summary of all values"),
 ]
 
+F2 = "skgenome/combiners.py"
+COMB_SPECS = [
+    (F2, "first_of", "src_first_of", "decision",
+     {"params": "(is_series : Bool)", "conds": {"isinstance(elems, pd.Series)": "is_series"},
+      "leaves": {"return elems.iat[0]": 0, "return elems.iloc[0]": 0, "return elems[0]": 2}},
+     "combiners.first_of: 0 = position 0 of a Series (.iat[0]), 2 = index 0 of a plain sequence (elems[0]; on a Series that would be a LABEL lookup)"),
+    (F2, "last_of", "src_last_of", "decision",
+     {"params": "(is_series : Bool)", "conds": {"isinstance(elems, pd.Series)": "is_series"},
+      "leaves": {"return elems.iat[-1]": 1, "return elems.iloc[-1]": 1, "return elems[-1]": 3}},
+     "combiners.last_of: 1 = the last position of a Series (.iat[-1]), 3 = index -1 of a plain sequence"),
+    (F2, "merge_strands", "src_merge_strands", "decision",
+     {"params": "(n_distinct : Nat)",
+      "conds": {"len(strands) > 1": "decide (n_distinct > 1)", "len(strands) >= 2": "decide (n_distinct ≥ 2)",
+                "len(strands) == 1": "(n_distinct == 1)", "len(strands) <= 1": "decide (n_distinct ≤ 1)"},
+      "leaves": {"return '.'": 0, "return elems[0]": 1}},
+     "combiners.merge_strands (strands = set(elems)): 0 = '.', 1 = the first element"),
+    (F2, "make_const.const", "src_make_const", "decision",
+     {"params": "", "leaves": {"return val": 0}},
+     "combiners.make_const: the inner function returns 0 = the value given to make_const"),
+    (F2, "join_strings", "src_join_strings", "decision",
+     {"params": "",
+      "leaves": {"return sep.join(pd.unique(pd.Series(elems)))": 0, "return sep.join(pd.Series(elems).unique())": 0}},
+     "combiners.join_strings: 0 = sep.join of the distinct elements in order of first appearance (pd.unique)"),
+]
+
 
 def extract(repo, o):
-    emit_table(repo, o, SPECS)
+    emit_table(repo, o, SPECS + COMB_SPECS)
